@@ -81,6 +81,21 @@ class Interp(ExprMixin, StmtMixin, CallMixin, BuiltinMixin):
             v = self.fresh_param(n, ptypes[n])
             env[n] = v
             ctx.inputs[n] = (v, ptypes[n])
+        for gname, gty in (c.ghost.get("params") or {}).items():
+            gv = self.fresh_param(gname, parse_type(gty))
+            env[gname] = gv
+            ctx.inputs[gname] = (gv, parse_type(gty))
+        if fn.args.vararg is not None:
+            items = []
+            for vn, vt in (c.ghost.get("varargs") or []):
+                v = self.fresh_param(vn, parse_type(vt))
+                ctx.inputs[vn] = (v, parse_type(vt))
+                items.append(v)
+                env[vn] = v       # visible to the contract clauses under its own name
+            env[fn.args.vararg.arg] = tuple(items)
+        if fn.args.kwarg is not None:
+            from .values import KwargsV
+            env[fn.args.kwarg.arg] = KwargsV({})
         self_val = env.get("self") if owner is not None and "staticmethod" not in decos else None
         fr = Frame(module, owner, cls, self_val, env, contract=c, fn=fn)
         fr.is_contract_frame = True
